@@ -10,7 +10,10 @@ Require Import Gengo.Base.Str Gengo.Base.Sexp Gengo.Base.StrOrder.
 Definition keywords : list str := map s
   ["break"; "case"; "chan"; "const"; "continue"; "default"; "defer"; "else"; "fallthrough"; "for";
    "func"; "go"; "goto"; "if"; "import"; "interface"; "map"; "package"; "range"; "return";
-   "select"; "struct"; "switch"; "type"; "var"]%string.
+   "select"; "struct"; "switch"; "type"; "var";
+   (* no keyword, but no package can be imported under it ("init must be a func"); importName treats it
+      like one (fix: commit recorded in KNOWN_FINDINGS.txt) *)
+   "init"]%string.
 Definition is_keyword (x : str) : bool := mem_str x keywords.
 
 Definition USCORE : N := 95. Definition SLASH : N := 47. Definition DQUOTE : N := 34. Definition SPC : N := 32.
